@@ -1,5 +1,6 @@
 /- Property C01: the property theorems (and nothing else). -/
 import Frugal.Proofs.RoundTrip
+import Frugal.Proofs.NormFacts
 import Frugal.Props.Instances
 namespace Frugal.C01
 open Frugal
@@ -15,12 +16,8 @@ theorem encode_is_reference (S : Schema) (hS : S.ok = true) (sid : Nat) (v : Val
     appendM Generated.params S sid v = refEncStruct S sid v :=
   appendAny_eq Instances.params_valid S hS v (.strct sid) rfl ht
 
-/-- Encode then decode, for every accepted schema and every value (without retained unknown fields,
-    lengths within the wire format's int32): the decoder consumes exactly the encoded length and
-    returns what the reference reader reads from the value's denotation, whatever the destination
-    held.  [`roundtrip_partial`: the remaining step to the full statement of C01 is
-    `readMessage (messageOf v) fresh = norm v`, a statement about the two specifications only; see
-    DESIGN.md section 9.] -/
+/-- Encode then decode, stated through the reference reader (kept: it needs no side condition on
+    the schema and holds for every destination, typed or not). -/
 theorem roundtrip_partial (S : Schema) (hS : S.ok = true) (sid : Nat) (xs : List Val) (dest : Val)
     (ht : hasTy S (.strct sid) (.st xs []) = true) (hn : noHolderList xs = true)
     (hf : sizesFitList xs = true) :
@@ -29,9 +26,106 @@ theorem roundtrip_partial (S : Schema) (hS : S.ok = true) (sid : Nat) (xs : List
         (·, (appendM Generated.params S sid (.st xs [])).length) :=
   roundtrip_via_reader Instances.params_valid S hS sid xs dest ht hn hf
 
-/-- the hypotheses are satisfiable: a recursive type, a NaN, a nil list, an omitted optional -/
-example : let S : Schema := [{ fields := [
-      { id := 1, req := .dflt, ty := .base .double }, { id := 2, req := .dflt, ty := .list false (.base .i32) },
-      { id := 3, req := .optional, ty := .ptr (.strct 0) }] }]
-    S.ok = true ∧ hasTy S (.strct 0) (.st [.sc 0x7ff8000000000001, .lst true [], .nilp] []) = true := by decide
+/-- **C01.** For every accepted schema and every value `v` of a struct type of it (typed; lengths
+    within int32; nesting at most 511 levels; a written nil struct pointer only where the struct has
+    no required field), encoding `v` with the model of frugal's encoder as written and decoding the
+    bytes with the model of its decoder as written into any destination of the type succeeds,
+    consumes exactly the encoded length, and yields `normTop v dest`: the destination with every
+    written field replaced by the field's normal form (`Norm.lean`, spelled out by the theorems
+    below) and every omitted field left as the destination had it. -/
+theorem roundtrip (S : Schema) (hS : S.ok = true) (hside : S.rtSide) (sid : Nat) (xs ds : List Val)
+    (h' : Bytes) (ht : hasTy S (.strct sid) (.st xs []) = true)
+    (hdest : hasTy S (.strct sid) (.st ds h') = true)
+    (hn : noHolderList xs = true) (hf : sizesFitList xs = true)
+    (hr : rtOK S (.strct sid) (.st xs []) = true)
+    (hd : depth (toWire S (.strct sid) (.st xs [])) ≤ 511) :
+    decodeM Generated.params S sid (appendM Generated.params S sid (.st xs [])) (.st ds h') =
+      .ok (normTop S sid (.st xs []) (.st ds h'),
+           (appendM Generated.params S sid (.st xs [])).length) := by
+  apply roundtrip_full Instances.params_valid S hS hside sid xs ds h' ht hdest hn hf hr
+  have hv := Instances.valid_depth
+  simp only [Params.validDepth, Bool.and_eq_true, decide_eq_true_eq] at hv
+  have : Generated.params.maxDepth = 1023 := rfl
+  omega
+
+/-- the same for the schema the resolver builds from any universe of Go declarations: what it
+    accepts is well-formed and has distinct ids (proved), the remaining side conditions are Go's
+    typing of the declared defaults and the finiteness of by-value nesting -/
+theorem roundtrip_accepted (U : Universe) (sid : Nat) (xs ds : List Val) (h' : Bytes)
+    (hnc : ∀ sid, ∀ f ∈ ((schemaOf U).get sid).fields, f.nocopy = false)
+    (hdf : ∀ sid, ∀ f ∈ ((schemaOf U).get sid).fields, f.assigned = true → ∀ d, f.dflt = some d →
+      hasTy (schemaOf U) f.ty d = true)
+    (hz : ∀ sid, hasTy (schemaOf U) (.strct sid) (zeroVal (schemaOf U) (schemaOf U).length (.strct sid)) = true)
+    (ht : hasTy (schemaOf U) (.strct sid) (.st xs []) = true)
+    (hdest : hasTy (schemaOf U) (.strct sid) (.st ds h') = true)
+    (hn : noHolderList xs = true) (hf : sizesFitList xs = true)
+    (hr : rtOK (schemaOf U) (.strct sid) (.st xs []) = true)
+    (hd : depth (toWire (schemaOf U) (.strct sid) (.st xs [])) ≤ 511) :
+    decodeM Generated.params (schemaOf U) sid (appendM Generated.params (schemaOf U) sid (.st xs [])) (.st ds h') =
+      .ok (normTop (schemaOf U) sid (.st xs []) (.st ds h'),
+           (appendM Generated.params (schemaOf U) sid (.st xs [])).length) :=
+  roundtrip (schemaOf U) (schemaOf_ok U) ⟨schemaOf_distinct U, hnc, hdf, hz⟩ sid xs ds h' ht hdest hn hf hr hd
+
+/-! the normal form, spelled out -/
+
+/-- scalars are bit-exact (a double is its 64 bits: NaN payloads, -0.0) -/
+theorem scalars_bit_exact (k : Kind) (n : Nat) (hk : k ≠ .enum) : normScalar k n = n :=
+  normScalar_exact k n hk
+
+/-- enums within 32 bits are exact, negative values included -/
+theorem enum_within_32_bits_exact (n : Nat) (h64 : n < 2 ^ 64)
+    (h32 : n < 2 ^ 31 ∨ 2 ^ 64 - 2 ^ 31 ≤ n) : normScalar .enum n = n :=
+  normScalar_enum_exact n h64 h32
+
+theorem strings_byte_exact (S : Schema) (s : Bytes) (d : Val) :
+    norm S (.base .string) (.str s) d = .str s := norm_string S s d
+
+theorem binaries_byte_exact (S : Schema) (n : Bool) (s : Bytes) (d : Val) :
+    norm S (.base .binary) (.bin n s) d = .bin false s := norm_binary S n s d
+
+/-- element order of lists and sets is preserved -/
+theorem list_order_preserved (S : Schema) (e : Ty) (xs : List Val) :
+    normList S e xs = xs.map (fun x => norm S e x (zeroVal S S.length e)) := normList_eq_map S e xs
+
+/-- a nil non-optional container comes back empty -/
+theorem nil_container_comes_back_empty (S : Schema) (s : Bool) (e k v : Ty) (d : Val) :
+    norm S (.list s e) (.lst true []) d = .lst false [] ∧ norm S (.map k v) (.mp true []) d = .mp false [] :=
+  ⟨norm_nil_list S s e d, norm_nil_map S k v d⟩
+
+/-- a map with pairwise distinct keys (every Go map) comes back with the same entries -/
+theorem map_entries_preserved (S : Schema) (k v : Ty) (es : List (Val × Val))
+    (h : (normKeys S k es).Pairwise (fun a b => keyEq k a b = false)) :
+    normEntries S k v es [] =
+      es.map fun p => (norm S k p.1 (zeroVal S S.length k), norm S v p.2 (zeroVal S S.length v)) := by
+  have := normEntries_distinct S k v es [] (by simpa using h)
+  simpa using this
+
+/-- a written field comes back as its normal form; an omitted optional field comes back as the
+    destination's value (the declared default of a default-initialised receiver) -/
+theorem field_written_or_default (S : Schema) (sd : SDesc) (f : Field) (fr : List Field) (x : Val)
+    (xr : List Val) (d : Val) (dr : List Val) :
+    normFields S sd (f :: fr) (x :: xr) (d :: dr) =
+      (if fieldWritten sd f x then norm S f.ty x d else d) :: normFields S sd fr xr dr :=
+  normFields_cons S sd f fr x xr d dr
+
+/-- the hypotheses are satisfiable: a recursive type with a double, a list and an optional pointer;
+    the value has a NaN, a nil list and a nil pointer; the destination is the zero value -/
+def exS : Schema := [{ fields := [
+  { id := 1, req := .dflt, ty := .base .double }, { id := 2, req := .dflt, ty := .list false (.base .i32) },
+  { id := 3, req := .optional, ty := .ptr (.strct 0) }] }]
+def exV : List Val := [.sc 0x7ff8000000000001, .lst true [], .ptr (.st [.sc 1, .lst false [.sc 5, .sc 4294967295], .nilp] [])]
+def exD : List Val := [.sc 0, .lst true [], .nilp]
+
+example : exS.ok = true ∧ exS.rtSideB = true ∧ hasTy exS (.strct 0) (.st exV []) = true ∧
+    hasTy exS (.strct 0) (.st exD []) = true ∧ noHolderList exV = true ∧ sizesFitList exV = true ∧
+    rtOK exS (.strct 0) (.st exV []) = true ∧ depth (toWire exS (.strct 0) (.st exV [])) ≤ 511 := by
+  decide
+
+example : exS.rtSide := rtSide_of_rtSideB exS (by decide)
+
+/-- and on that instance the normal form is the value with the nil list made empty -/
+example : normTop exS 0 (.st exV []) (.st exD []) =
+    .st [.sc 0x7ff8000000000001, .lst false [],
+         .ptr (.st [.sc 1, .lst false [.sc 5, .sc 4294967295], .nilp] [])] [] := by
+  rfl
 end Frugal.C01
